@@ -798,8 +798,9 @@ def random_tree(rng, names, max_nodes, depth=3):
                 out.append(("D", p))
                 rec(p, d + 1, budget)
             else:
+                # (0 = the epoch itself: a legal, falsy timestamp)
                 out.append(("F", p, rng.choice([b"", b"x", b"yy", b"zz", b"hello", bytes([rng.randrange(256)]) * 2]),
-                            rng.choice([1000, 2000, 3000])))
+                            rng.choice([0, 1000, 2000, 3000])))
 
     rec("", 0, [max_nodes])
     return out
